@@ -87,7 +87,7 @@ theorem nv_mem_unknowns_stampAll : br 1 ∈ C01.unknowns (stampAll .ivp (2:ℚ) 
 theorem nv_mna_iff_laws_ac (x : Ix → Cx ℚ) :
     Solves .lap (Cx.jw 1 * Cx.ofReal 3) [.V 1 0 0 (Cx.ofReal 5), .R 1 2 (Cx.ofReal 2), .Cap 2 0 (Cx.ofReal 4) none] x ↔
     Laws .lap (Cx.jw 1 * Cx.ofReal 3) [.V 1 0 0 (Cx.ofReal 5), .R 1 2 (Cx.ofReal 2), .Cap 2 0 (Cx.ofReal 4) none] x :=
-  mna_iff_laws_ac (Cx.jw 1) (Cx.ofReal 3) Cx.jw_one_sq _ x (by simp [WF, owned])
+  mna_iff_laws_ac (Cx.jw 1) (Cx.ofReal 3) _ x (by simp [WF, owned])
 
 /-- `dup_row_same_solutions`: `R1 3 4 2; H1 1 2 R1 5; H2 … R1 …` — the control row of R1 stamped a second time (c = 1) -/
 theorem nv_dup_row (x : Ix → ℚ) :
